@@ -6,4 +6,5 @@
         use vstd::prelude::*;
         use super::super::NaiveDateTime;
         //@ items src:zvt/src/packets/tlv.rs | structs
+        //@ include $EXTRA_TLV
     }
